@@ -173,9 +173,37 @@ func (u *User) Rename(oldName, newName string) error {
 		}
 	}
 
+	// Inferior hierarchical names are renamed as well: renaming "foo" to "zap"
+	// renames "foo/bar" to "zap/bar"
+	oldPrefix := oldName + string(mailboxDelim)
+	newPrefix := newName + string(mailboxDelim)
+	inferiors := make(map[string]*Mailbox)
+	for name, inferior := range u.mailboxes {
+		if !strings.HasPrefix(name, oldPrefix) {
+			continue
+		}
+		newInferiorName := newPrefix + strings.TrimPrefix(name, oldPrefix)
+		if other := u.mailboxes[newInferiorName]; other != nil && !strings.HasPrefix(newInferiorName, oldPrefix) {
+			return &imap.Error{
+				Type: imap.StatusResponseTypeNo,
+				Code: imap.ResponseCodeAlreadyExists,
+				Text: "Mailbox already exists",
+			}
+		}
+		inferiors[name] = inferior
+	}
+
 	mbox.rename(newName)
-	u.mailboxes[newName] = mbox
 	delete(u.mailboxes, oldName)
+	for name := range inferiors {
+		delete(u.mailboxes, name)
+	}
+	u.mailboxes[newName] = mbox
+	for name, inferior := range inferiors {
+		newInferiorName := newPrefix + strings.TrimPrefix(name, oldPrefix)
+		inferior.rename(newInferiorName)
+		u.mailboxes[newInferiorName] = inferior
+	}
 	return nil
 }
 
